@@ -94,6 +94,7 @@ def sequence(ctx, seed):
     from basis_set_exchange import curate, writers
     d = tempfile.mkdtemp(prefix='vadd')
     added = {}           # (name, version) -> (component, refs, description)
+    used = set()         # (file base, version) of the additions that succeeded
     history = []
     today = datetime.date.today().isoformat()
     try:
@@ -109,7 +110,9 @@ def sequence(ctx, seed):
             zs = list(comp['elements'])
             refs = gen_refs(rng, zs)
             role, family = 'orbital', 'addfam'
-            kind = rng.choice(['ok', 'ok', 'ok', 'ok', 'invalid-data', 'invalid-role', 'invalid-family', 'name-clash', 'bad-refs', 'file', 'differing-types'])
+            kind = rng.choice(['ok', 'ok', 'ok', 'ok', 'invalid-data', 'invalid-role', 'invalid-family', 'name-clash', 'bad-refs', 'file', 'differing-types',
+                               'case-twin'])
+            model_refs = True
             if seed % 3 == 0 and step < 2 and nsteps >= 3:
                 # a fixed opening: a valid addition, then a new version of it that is refused, then (retry) the corrected one
                 name, fb = bases[0], bases[0].lower()
@@ -144,7 +147,14 @@ def sequence(ctx, seed):
                     zs = list(comp['elements'])
                     refs = gen_refs(rng, zs)
             elif kind == 'bad-refs':
-                refs = {'Og-Og': ['refq']} if '118' not in zs else 5
+                from basis_set_exchange import misc
+                zk = misc.compact_elements(sorted(zs, key=int))
+                which = rng.randrange(6)
+                refs = [{'Og-Og': ['refq']} if '118' not in zs else 5, 5, ['r1', 'r1'], ['r1', 5], {zk: 5}, {zk: ['ra', 'ra']}][which]
+                model_refs = which == 0       # the other shapes are refused by the schema of the stored references, which the model does not carry
+            elif kind == 'case-twin':
+                # another basis whose file base differs from a registered one only in letter case: a different set of files
+                name, fb = 'TW' + name, fb.upper()
             strs = [sub, fb, name, family, role, 'desc of ' + name, version, 'rev ' + version]
             before = snapshot(d)
             model_dir = {k: (json.loads(v) if v.strip() else None) for k, v in before.items() if k.endswith('.json')}
@@ -173,7 +183,7 @@ def sequence(ctx, seed):
             replay = {'kind': 'sequence', 'seed': seed, 'step': step, 'history': history}
             site = 'curate.add_basis'
             # model
-            if ctx.model is not None and not (kind == 'bad-refs' and not isinstance(refs, dict)):
+            if ctx.model is not None and not (kind == 'bad-refs' and (not isinstance(refs, dict) or not model_refs)):
                 m = ctx.model.call('add_basis_from_dict', model_dir, comp, strs + ['generated', today], refs)
                 got_dir = {k: json.loads(v) for k, v in after.items() if k.endswith('.json')}
                 got = ('ok', got_dir) if r[0] == 'ok' else (r[0], 'Validation' if 'ValidationError' in r[1] else r[1])
@@ -188,8 +198,8 @@ def sequence(ctx, seed):
                 if after != before:
                     ctx.violation(site, 'failed-add-changed-directory:' + kind, 'a refused addition (%s) left the directory changed: new files %s'
                                   % (kind, sorted(set(after) - set(before))), replay)
-                if kind in ('ok', 'file') and (name, version) not in added:
-                    clash = any(fb == n.lower().replace('*', '_st_') and version == v for (n, v) in added)
+                if kind in ('ok', 'file', 'case-twin') and (name, version) not in added:
+                    clash = (fb, version) in used
                     if not clash:
                         ctx.violation(site, 'valid-refused:' + r[1], 'a valid addition is refused with %s' % r[1], replay)
                 continue
@@ -200,6 +210,7 @@ def sequence(ctx, seed):
                 ctx.violation(site, 'invalid-accepted:' + kind, 'input that fails validation (%s) was added' % kind, replay)
                 continue
             added[(name, version)] = (comp, refs, 'desc of ' + name)
+            used.add((fb, version))
             # index consistent with the directory: regenerating it changes nothing
             tmpidx = os.path.join(d, '..', os.path.basename(d) + '_idx.json')
             g = impl.call(curate.create_metadata_file, tmpidx, d)
